@@ -306,6 +306,16 @@ func mustMkDir(dir string) string {
 	return dir
 }
 
+// mustEmptyDir: the intermediate directory must hold the rewritten files of
+// this run only. What an earlier, killed run left there would otherwise be
+// optimised and written into the destination as well.
+func mustEmptyDir(dir string) string {
+	dir, err := filepath.Abs(dir)
+	panicIf(err)
+	panicIf(os.RemoveAll(dir))
+	return mustMkDir(dir)
+}
+
 func panicIf(err error) {
 	if err != nil {
 		panic(err)
